@@ -821,8 +821,8 @@ func init() {
 			return sc
 		},
 		Exec:       execBatch,
-		Quick:      120,
-		Thorough:   5000,
+		Quick:      180,
+		Thorough:   8000,
 		RaceFrac:   0.25,
 		NonTrivial: batchNonTrivial,
 		Chunk:      6,
